@@ -1,12 +1,12 @@
 (* Props/C10.v — property C10: key and signature encodings (WIF, SEC, DER) are lossless and strict.
    Only statements; every proof is `exact <lemma>`.
 
-   Number-theoretic premises that stay premises (DESIGN.md section 3, M1/M3), visible in the statements:
-   `prime p` and `fermat_premise p` (t^(p-1) = 1 mod p for 0 < t < p).  They are used ONLY for
-   "decompression finds the point back" (the two C10_sec_roundtrip theorems); they are PROVED by kernel computation on
-   the toy field p = 251 (C10_toy_premises_hold) and the single Fermat instance the generator G of
-   secp256k1 needs is computed (C10_secp256k1_G_roundtrips).  The acceptance/strictness theorems need
-   neither.
+   The only number-theoretic premise left is `prime p` (M1 of DESIGN.md section 3: no primality
+   certificate checker is installed, and 256-bit primality by kernel computation is out of reach).  Fermat's
+   little theorem (M3) is PROVED from it (Proofs/FermatC10.v).  `prime p` is used ONLY for "decompression
+   finds the point back" (the three C10_sec_*roundtrip* theorems); it is proved by computation on the toy
+   field p = 251 (C10_toy_premises_hold), and for the generator G of secp256k1 the round trip is evaluated
+   outright (C10_secp256k1_G_roundtrips).  The acceptance/strictness theorems do not need it.
 
    DER: the round trip for ALL r, s >= 0 is FALSE in the faithful model (finding der-integer-length-128:
    encode_integer writes the content length as one raw byte, so 128..255 content bytes are misread as a
@@ -69,9 +69,10 @@ Print Assumptions C10_der_encoder_output_is_bip66.
 (* ================================ SEC ================================ *)
 
 (* every finite point with y <> 0 of every curve over a 32-byte field prime p = 3 (mod 4) goes through
-   public_pair_to_sec and Key.from_sec (compressed and uncompressed) and comes back with its flag *)
+   public_pair_to_sec and Key.from_sec (compressed and uncompressed) and comes back with its flag.
+   (A point with y = 0 has order 2; points_for_x raises ValueError for it — see C10_sec_y0_not_decodable.) *)
 Theorem C10_sec_roundtrip : forall p a b : Z,
-  2 ^ 248 <= p < 2 ^ 256 -> prime p -> p mod 4 = 3 -> fermat_premise p ->
+  2 ^ 248 <= p < 2 ^ 256 -> prime p -> p mod 4 = 3 ->
   forall (x y : Z) (compressed : bool),
   0 <= x < p -> 0 < y < p -> contains_point p a b x y = true ->
   exists sec, public_pair_to_sec (x, y) compressed = Ret sec /\
@@ -80,10 +81,20 @@ Theorem C10_sec_roundtrip : forall p a b : Z,
 Proof. exact sec_roundtrip_generic. Qed.
 Print Assumptions C10_sec_roundtrip.
 
+(* the same at sec_to_public_pair level, strict and non-strict mode *)
+Theorem C10_sec_decode_roundtrip : forall p a b : Z,
+  2 ^ 248 <= p < 2 ^ 256 -> prime p -> p mod 4 = 3 ->
+  forall (x y : Z) (compressed strict : bool),
+  0 <= x < p -> 0 < y < p -> contains_point p a b x y = true ->
+  exists sec, public_pair_to_sec (x, y) compressed = Ret sec /\
+    sec_to_public_pair p a b sec strict = Ret (x, y).
+Proof. exact sec_decode_roundtrip_generic. Qed.
+Print Assumptions C10_sec_decode_roundtrip.
+
 (* on the curve the networks use (constants regenerated from pycoin/ecdsa/secp256k1.py) EVERY finite
-   point round-trips: y = 0 is impossible there (-7 is not a cube mod p; computed under the premise) *)
+   point round-trips: y = 0 is impossible there (-7 is not a cube mod p: (-7)^((p-1)/3) is computed) *)
 Theorem C10_sec_roundtrip_secp256k1 :
-  prime k1_p -> fermat_premise k1_p ->
+  prime k1_p ->
   forall (x y : Z) (compressed : bool),
   0 <= x < k1_p -> 0 <= y < k1_p -> contains_point k1_p k1_a k1_b x y = true ->
   exists sec, public_pair_to_sec (x, y) compressed = Ret sec /\
@@ -91,6 +102,13 @@ Theorem C10_sec_roundtrip_secp256k1 :
     key_from_sec k1_p k1_a k1_b sec = Ret ((x, y), compressed).
 Proof. exact sec_roundtrip_k1. Qed.
 Print Assumptions C10_sec_roundtrip_secp256k1.
+
+(* why 0 < y: for a curve point with y = 0 decompression raises ValueError (pycoin's documented curves
+   have prime order, hence no such point) *)
+Theorem C10_sec_y0_not_decodable : forall p a b x : Z, 3 <= p ->
+  contains_point p a b x 0 = true -> points_for_x p a b x = Raise E_VALUE.
+Proof. exact y0_not_decodable. Qed.
+Print Assumptions C10_sec_y0_not_decodable.
 
 (* Key.from_sec accepts a blob ONLY IF it is the encoding of a curve point with coordinates below p:
    the accepted blob equals public_pair_to_sec of the decoded pair and flag (so length 33 with prefix
@@ -188,9 +206,9 @@ Print Assumptions C10_wif_refuses_out_of_range.
 
 (* ================================ non-vacuity ================================ *)
 
-(* the number-theoretic premises are provable where computation reaches: p = 251 *)
-Example C10_toy_premises_hold : prime 251 /\ 251 mod 4 = 3 /\ fermat_premise 251.
-Proof. exact (conj prime_251 (conj eq_refl fermat_251)). Qed.
+(* the premises `prime p`, `p mod 4 = 3` are provable where computation reaches: p = 251 *)
+Example C10_toy_premises_hold : prime 251 /\ 251 mod 4 = 3.
+Proof. exact (conj prime_251 eq_refl). Qed.
 
 (* ... and with them decompression finds every point of y^2 = x^3 + 7 over F_251 back *)
 Example C10_toy_decompression : forall x y, 0 < y < 251 -> contains_point 251 0 7 x y = true ->
